@@ -63,6 +63,9 @@ pub fn run_min(c: &MinCase, m2s: bool, work: &str, uid: &str) -> MinOut {
     let inp = write_input(work, uid, &c.recs, "fa");
     let outp = format!("{}/min_{}.txt", work, uid);
     let _ = std::fs::remove_file(&outp);
+    if stale_case(&c.req()) {
+        plant_file(&outp, c.recs.iter().map(|r| r.len() * 4 + 40).sum());
+    }
     install_sched(&c.sched);
     let result = catch(std::panic::AssertUnwindSafe(|| {
         if m2s {
@@ -380,6 +383,17 @@ pub fn run_c10(tier: &str, seed: u64, model: &Model, corpus_lines: Vec<String>, 
         let recs: Vec<Vec<u8>> = (0..n).map(|_| { let l = rng.range(60, 140) as usize; gen::clean_seq(&mut rng, l, gen::Flavor::Uniform) }).collect();
         let c = MinCase { recs, w: 15, m: 7, threads: 4, sched: "free".into() };
         run_one(&c, "large", &mut rep, &mut traces, &mut branching);
+    }
+    // whole-record mode (w = 0) on contig-sized records: the window holds more than 2^16 m-mers
+    {
+        let mut recs: Vec<Vec<u8>> = Vec::new();
+        for _ in 0..1 {
+            let l = rng.range(65_700, 66_500) as usize;
+            recs.push(gen::clean_seq(&mut rng, l, gen::Flavor::Uniform));
+            recs.push(gen::clean_seq(&mut rng, 80, gen::Flavor::Uniform));
+        }
+        let c = MinCase { recs, w: 0, m: 10, threads: 2, sched: "free".into() };
+        run_one(&c, "contigs-whole-record", &mut rep, &mut traces, &mut branching);
     }
     rep.traces_validated = traces;
     rep.schedules_enumerated = n_sched;
